@@ -177,6 +177,9 @@ class Module:
         self.classes = {}
         self.assigns = {}
         self.imports = {}
+        for node in ast.walk(self.tree):
+            if isinstance(node, (ast.FunctionDef, ast.AsyncFunctionDef)):
+                node._module = self
         for node in self.tree.body:
             if isinstance(node, (ast.FunctionDef, ast.AsyncFunctionDef)):
                 self.funcs[node.name] = node
@@ -198,6 +201,17 @@ class Module:
 
     def func(self, name, rule='E1'):
         if name not in self.funcs:
+            # a function moved to another module of the package and imported back under the same name
+            seen, mod, nm = set(), self, name
+            while nm not in mod.funcs and nm in mod.imports and (mod.name, nm) not in seen:
+                seen.add((mod.name, nm))
+                src, orig = mod.imports[nm]
+                other = self.repo.resolve_module(src) if orig is not None else None
+                if other is None:
+                    break
+                mod, nm = other, orig
+            if nm in mod.funcs:
+                return mod.funcs[nm]
             raise Unrecognised(rule, f'function {name} not found', self.rel)
         return self.funcs[name]
 
@@ -399,6 +413,11 @@ class Repo:
         if name in mod.imports:
             modname, orig = mod.imports[name]
             other = self.resolve_module(modname)
+            hops = 0
+            # a re-export (the other module imports the name from a third module of the package) is followed to the definition
+            while other is not None and orig is not None and orig not in other.funcs and orig in other.imports and hops < 4:
+                modname2, orig2 = other.imports[orig]
+                other, orig, hops = self.resolve_module(modname2), orig2, hops + 1
             if other is not None and orig in other.funcs:
                 return other, other.funcs[orig]
         return None
